@@ -27,3 +27,4 @@ def run(ctx, rep):
     objmodel.rule_constructor_result_objects_include_functions(ctx, rep, "C08-R20")
     objmodel.rule_own_questions_stay_on_the_receiver(ctx, rep, "C08-R21")
     objmodel.rule_delete_answers_gone(ctx, rep, "C08-R22")
+    objmodel.rule_native_arrays_get_the_prototype(ctx, rep, "C08-R23")
